@@ -143,7 +143,7 @@ def run_unit(tier, only_prefix=None):
         out['binary'] = binary
 
         def one(p):
-            return p, kani.native_exhaust(binary, p[0], p[1], timeout=3600)
+            return p, kani.native_exhaust(binary, p[0], p[1], timeout=1500)
         with ThreadPoolExecutor(max_workers=6) as ex2:
             for p, r in ex2.map(one, plan):
                 out['native'][p[0]] = dict(r, domain=p[2])
